@@ -6114,7 +6114,13 @@ class TensorDictBase(MutableMapping):
 
             for other_cls in tensordict.base._ACCEPTED_CLASSES:
                 if str(other_cls) == type_name:
-                    return other_cls._load_memmap(prefix, metadata)
+                    # forward the destination (load_memmap_) and the device when they are given
+                    kwargs = {}
+                    if device is not None:
+                        kwargs["device"] = torch.device(device)
+                    if out is not None:
+                        kwargs["out"] = out
+                    return other_cls._load_memmap(prefix, metadata, **kwargs)
             else:
                 raise RuntimeError(
                     f"Could not find name {type_name} in {tensordict.base._ACCEPTED_CLASSES}. "
